@@ -333,8 +333,8 @@ example : (ansi exTb [ESC, '[', '1', '2', 'C']).length = 12 ∧ 12 ≤ 9999 * 5 
     "HTML.__mod__ | width or precision counts the escaped characters". -/
 theorem format_pads_value_percent_pads_escaped :
     vformat htmlEscape exPr "{:3}".toList [{ s := "<".toList }] [] = some (.ok "&lt;  ".toList) ∧
-    pformat htmlEscape "%3s".toList [{ s := "<".toList }] = some (.ok "&lt;".toList) ∧
-    pformat htmlEscape "%.2s".toList [{ s := "<".toList }] = some (.ok "&l".toList) := by
+    pformat htmlEscape exPr "%3s".toList [{ s := "<".toList }] = some (.ok "&lt;".toList) ∧
+    pformat htmlEscape exPr "%.2s".toList [{ s := "<".toList }] = some (.ok "&l".toList) := by
   refine ⟨by rfl, by rfl, by rfl⟩
 
 
